@@ -332,7 +332,7 @@ pub fn run(args: &Args, r: &mut Report) {
     ]);
     r.assume("a crash between the metric report and the clearing commit may lead to a second report by the next state machine (not decided by the statement)");
     r.assume("within one incarnation wall and monotonic clocks advance together; jumps happen only across restarts");
-    let n = args.budget(3_000, 80_000);
+    let n = args.budget(30_000, 400_000);
     for i in 0..n {
         if args.skip(i) {
             continue;
